@@ -102,36 +102,32 @@ def build_calls(quick):
     return calls
 
 
-def keyword_calls():
-    """Every word that is a key of a class-level table of any dialect's tokenizer or parser (keywords, function names, no-paren
-    function parsers, property / statement / constraint parsers ...), placed where an ordinary identifier may stand, in the base
-    dialect and in the first dialect that declares it. Their digests depend on exactly the tables a call may leave modified."""
+def keyword_words():
+    """Every word that is a key (or string value) of a class-level table of any dialect's tokenizer, parser or Dialect class
+    (keywords, function names, no-paren function parsers, property / statement / constraint parsers, date-part and time
+    mappings, interval units ...). Probed in identifier / alias / function / table / type / unit position (procmatrix.KW_SHAPES):
+    the digests depend on exactly the tables that a call, an import or a subclass may leave modified."""
     import re
 
     from sqlglot.dialects.dialect import Dialect
     from vlib import corpus
 
     pat = re.compile(r"^[A-Z_][A-Z0-9_]*$")
-    words: dict[str, str] = {}
+    words: set[str] = set()
     for d in [""] + corpus.all_dialects():
         D = Dialect.get_or_raise(d or None)
-        for cls in (D.tokenizer_class, D.parser_class):
+        for cls in (D.tokenizer_class, D.parser_class, type(D)):
             for a in sorted(dir(cls)):
                 if not a.isupper():
                     continue
                 v = getattr(cls, a, None)
                 if isinstance(v, (dict, set, frozenset, tuple, list)):
-                    for k in v:
+                    for k in list(v) + (list(v.values()) if isinstance(v, dict) else []):
                         if isinstance(k, str):
                             for w in k.upper().split():
                                 if pat.match(w):
-                                    words.setdefault(w, d)
-    from vlib.procmatrix import kw_specs
-
-    out = []
-    for w in sorted(words):
-        out.extend(kw_specs(w, sorted({"", words[w]})))
-    return out
+                                    words.add(w)
+    return sorted(words)
 
 
 def witness_calls():
@@ -178,8 +174,8 @@ def run(ctx: Ctx) -> None:
     calls = build_calls(quick)
     wit = witness_calls()
     reuse = reuse_calls(quick)
-    kw = keyword_calls()
-    by_id = {c[0]: c for c in calls + wit + reuse + kw}
+    kw_words = keyword_words()
+    by_id = {c[0]: c for c in calls + wit + reuse}
     tmpdir = tempfile.mkdtemp(prefix="verif_c15_")
     cells = []   # (label, seed, specs)
     for seed in range(S):
@@ -227,13 +223,18 @@ def run(ctx: Ctx) -> None:
         cells.append((f"cold/{d}", 0, specs))
         cells.append((f"warm/{d}", 0, [[f"pre_{d}", "preload", [x for x in all_d if x != d]]] + specs))
         coldwarm.append(d)
-    # keyword probes: alone in a cold process (canonical), after the whole forward history of successful calls, and after a
-    # history of FAILING inputs (P slices of: every token prefix / single-token deletion of every dialect-test statement)
+    # keyword probes per dialect: in a process that has loaded nothing else (canonical), in a process that loaded every other
+    # dialect first, and (base dialect) after the whole forward history of successful calls
+    kw_dialects = CORE_TARGETS if quick else [""] + all_d
+    for d in kw_dialects:
+        cells.append((f"kwcold/{d}", 0, [[f"kwall_{d}", "kwall", d, kw_words]]))
+        cells.append((f"kwwarm/{d}", 0, [[f"pre_{d}", "preload", [x for x in all_d if x != d]], [f"kwall_{d}", "kwall", d, kw_words]]))
+    cells.append(("kwafter/", 0, calls + [["kwall_", "kwall", "", kw_words]]))
+    # histories of FAILING inputs (P slices of: every token prefix / single-token deletion of every dialect-test statement); the
+    # class-level tables are compared after every input and the words that entered / left one are probed at once
     P = 16
-    cells.append(("kw/cold", 0, kw))
-    cells.append(("kw/after_forward", 0, calls + kw))
     for k in range(P):
-        cells.append((f"poison/{k}", 0, [[f"poison{k}", "poison", k, P]] + kw + calls[k % 3::3]))
+        cells.append((f"poison/{k}", 0, [[f"poison{k}", "poison", k, P]] + calls[k % 3::3]))
     cells.append(("reuse", 0, reuse))
     cells.append(("reuse/seed3", 3, reuse))
     # run with bounded parallelism
@@ -276,7 +277,7 @@ def run(ctx: Ctx) -> None:
                 w_, pd_, j_ = pid_.split("|")[1:4]
                 from vlib.procmatrix import kw_specs as _kw
                 spec = next(sp for sp in _kw(w_, [pd_]) if sp[0] == pid_)
-                ref = results["kw/cold"].get(pid_)
+                ref = (results.get(f"kwcold/{pd_}") or {}).get(pid_)
                 if ref is None:
                     aux_needed.setdefault(pid_, spec)
                     aux_pending.append((pid_, dg, label))
@@ -291,8 +292,12 @@ def run(ctx: Ctx) -> None:
             if base_id.startswith("w"):
                 continue
             ref = canonical.get(base_id)
-            if ref is None and base_id.startswith("k"):
-                ref = results["kw/cold"].get(base_id)
+            if base_id.startswith("k|"):
+                if label.startswith("kwcold/"):
+                    continue
+                ref = results[f"kwcold/{base_id.split('|')[2]}"].get(base_id)
+                from vlib.procmatrix import kw_specs as _kw2
+                by_id[base_id] = next(sp for sp in _kw2(base_id.split("|")[1], [base_id.split("|")[2]]) if sp[0] == base_id)
             if ref is None and base_id.startswith("cw_"):
                 ref = results[f"cold/{base_id.split('_')[1]}"].get(base_id)
             if ref is None:
@@ -304,11 +309,13 @@ def run(ctx: Ctx) -> None:
             if dg != ref:
                 spec = by_id[base_id]
                 kind = "hash_seed" if label.startswith("seed") and label.endswith("forward") else "history"
-                where = "after_failing_inputs" if label.startswith("poison/") else label.split('/')[-1] if not label.startswith('seed') else label.split('/')[1]
+                where = "after_failing_inputs" if label.startswith("poison/") else label.split('/')[0] if label.startswith("kw") else label.split('/')[-1] if not label.startswith('seed') else label.split('/')[1]
                 sig = f"C15|{kind}|{spec[1]}|{where}"
                 case = {"spec": spec, "cell": label}
                 if label.startswith("poison/"):
                     case["history"] = [[f"poison{label.split('/')[1]}", "poison", int(label.split('/')[1]), P]]
+                elif label.startswith("kwwarm/"):
+                    case["history"] = [["pre", "preload", [x for x in all_d if x != label.split('/')[1]]]]
                 viol.setdefault(sig, {"what": f"call {spec[1:]!r:.300} gives a different result in cell {label} than in " + ("a cold process" if base_id.startswith("k") else "seed0/forward"),
                                       "case": case, "count": 0})["count"] += 1
     if aux_needed:
@@ -376,7 +383,8 @@ def run(ctx: Ctx) -> None:
             "calls": len(calls),
             "reuse_histories": len(reuse),
             "order_coverage_witness": witness,
-            "keyword_probe_calls": len(kw),
+            "keyword_probe_words": len(kw_words),
+            "keyword_probe_dialects": len(kw_dialects),
             "class_table_changes_seen_after_failing_inputs": table_leads[:20],
             "exhaustive": True,
             "samples": [calls[0], calls[len(calls) // 2], reuse[len(reuse) // 2]],
